@@ -56,7 +56,7 @@ pub struct Weights {
 
 impl Weights {
     pub const fn ops_only() -> Self {
-        Weights { edit: 40, deliver: 45, redeliver: 8, merge: 0, snapshot: 0, merge_snapshot: 0, save_restore: 0, probe: 0 }
+        Weights { edit: 40, deliver: 45, redeliver: 8, merge: 0, snapshot: 4, merge_snapshot: 0, save_restore: 0, probe: 0 }
     }
     pub const fn mixed() -> Self {
         Weights { edit: 38, deliver: 30, redeliver: 6, merge: 14, snapshot: 5, merge_snapshot: 5, save_restore: 0, probe: 0 }
@@ -140,7 +140,15 @@ fn step_strategy(w: &Weights) -> BoxedStrategy<Step> {
     proptest::strategy::Union::new_weighted(v).boxed()
 }
 
+/// thorough tier: longer histories and one more editor (set once by main before any strategy is built)
+pub static THOROUGH: std::sync::atomic::AtomicBool = std::sync::atomic::AtomicBool::new(false);
+
 pub fn plan_strategy(cfg: &PlanCfg) -> BoxedStrategy<Plan> {
+    let mut cfg = cfg.clone();
+    if THOROUGH.load(std::sync::atomic::Ordering::Relaxed) {
+        cfg.steps.1 = cfg.steps.1 * 3 / 2;
+        cfg.editors.1 = (cfg.editors.1 + 1).min(5);
+    }
     let steps = proptest::collection::vec(step_strategy(&cfg.w), cfg.steps.0..=cfg.steps.1);
     let settle = proptest::collection::vec(any::<u16>(), cfg.settle..=cfg.settle);
     (cfg.editors.0..=cfg.editors.1, cfg.observers.0..=cfg.observers.1, steps, settle)
